@@ -1,0 +1,61 @@
+//go:build verif
+
+package runtime
+
+// Contracts for the verif build tag (comment-only; see /verif/DESIGN.md).
+
+//@ prop C15
+//@ import transaction github.com/nspcc-dev/neo-go/pkg/core/transaction
+//@ import interop github.com/nspcc-dev/neo-go/pkg/core/interop
+//@ import manifest github.com/nspcc-dev/neo-go/pkg/smartcontract/manifest
+//@ import callflag github.com/nspcc-dev/neo-go/pkg/smartcontract/callflag
+//@ import keys github.com/nspcc-dev/neo-go/pkg/crypto/keys
+//@ import util github.com/nspcc-dev/neo-go/pkg/util
+//@ import vm github.com/nspcc-dev/neo-go/pkg/vm
+
+//@ spec groupsOf(ic *interop.Context, h util.Uint160) manifest.Groups = ite(interop.hasContract(ic, h), manifest.Groups(interop.cGroups(ic, h)), nil)
+//@ spec hasGrp(ic *interop.Context, h util.Uint160, k *keys.PublicKey) bool = exists(i, 0, len(groupsOf(ic, h)), keys.keyEq(k, groupsOf(ic, h)[i].PublicKey))
+
+// The matching context handed to witness conditions is the VM state itself.
+//@ refine scopeContext sc as transaction.MatchContext
+//@ refine-ghost cbe sc.VM.cbe
+//@ refine-ghost cur sc.VM.cur
+//@ refine-ghost calling sc.VM.calling
+//@ refine-spec transaction.grp(ctx, h, k) = hasGrp(sc.ic, h, k)
+
+//@ spec ctxOf(ic *interop.Context) transaction.MatchContext = transaction.MatchContext(scopeContext{ic.VM, ic})
+//@ spec firstAllow(rules []transaction.WitnessRule, k int, ctx transaction.MatchContext) bool decreases len(rules) - k = ite(k >= len(rules), false, ite(transaction.match(rules[k].Condition, ctx), rules[k].Action == transaction.WitnessAllow, firstAllow(rules, k+1, ctx)))
+//@ spec allowed(s transaction.Signer, ic *interop.Context) bool = s.Scopes == transaction.Global || (s.Scopes & transaction.CalledByEntry != 0 && ic.VM.cbe) || (s.Scopes & transaction.CustomContracts != 0 && exists(i, 0, len(s.AllowedContracts), s.AllowedContracts[i] == ic.VM.cur)) || (s.Scopes & transaction.CustomGroups != 0 && exists(i, 0, len(s.AllowedGroups), hasGrp(ic, ic.VM.cur, s.AllowedGroups[i]))) || (s.Scopes & transaction.Rules != 0 && firstAllow(s.Rules, 0, ctxOf(ic)))
+//@ spec wfSigners(ic *interop.Context) bool = forall(i, 0, len(interop.signersOf(ic)), forall(j, 0, len(interop.signersOf(ic)[i].Rules), interop.signersOf(ic)[i].Rules[j].Condition != nil))
+
+//@ func getContractGroups
+//@ requires v != nil && ic != nil
+//@ ensures[flag] (result1 != nil) == (v.flags & callflag.ReadStates == 0)
+//@ ensures[groups] result1 == nil ==> same(result0, groupsOf(ic, h))
+
+//@ func (scopeContext).IsCalledByEntry
+//@ requires sc.VM != nil
+//@ ensures result == transaction.MatchContext(sc).cbe
+
+//@ func (scopeContext).checkScriptGroups
+//@ requires sc.VM != nil && sc.ic != nil
+//@ ensures result1 == nil ==> result0 == hasGrp(sc.ic, h, k)
+
+//@ func (scopeContext).CurrentScriptHasGroup
+//@ requires sc.VM != nil && sc.ic != nil
+//@ ensures result1 == nil ==> result0 == transaction.grp(transaction.MatchContext(sc), transaction.MatchContext(sc).cur, k)
+
+//@ func (scopeContext).CallingScriptHasGroup
+//@ requires sc.VM != nil && sc.ic != nil
+//@ ensures result1 == nil ==> result0 == transaction.grp(transaction.MatchContext(sc), transaction.MatchContext(sc).calling, k)
+
+//@ func checkScope
+//@ requires ic != nil && ic.VM != nil && wfSigners(ic)
+//@ ensures[nosigners] len(interop.signersOf(ic)) == 0 ==> result1 != nil
+//@ ensures[scope] result1 == nil ==> result0 == exists(i, 0, len(interop.signersOf(ic)), interop.signersOf(ic)[i].Account == hash && forall(j, 0, i, interop.signersOf(ic)[j].Account != hash) && allowed(interop.signersOf(ic)[i], ic))
+//@ loop 0 invariant forall(j, 0, $i, signers[j].Account != hash)
+//@ loop 1 invariant firstAllow(c.Rules, 0, ctxOf(ic)) == firstAllow(c.Rules, $i, ctxOf(ic))
+
+//@ func CheckHashedWitness
+//@ requires ic != nil && ic.VM != nil && wfSigners(ic)
+//@ ensures[witness] result1 == nil ==> result0 == ((ic.VM.calling != util.Uint160{} && hash == ic.VM.calling) || exists(i, 0, len(interop.signersOf(ic)), interop.signersOf(ic)[i].Account == hash && forall(j, 0, i, interop.signersOf(ic)[j].Account != hash) && allowed(interop.signersOf(ic)[i], ic)))
